@@ -12,28 +12,28 @@ E1_PROPS = ('C01', 'C02', 'C03', 'C04', 'C05', 'C06', 'C07', 'C09', 'C10', 'C12'
 ALSO = {
     'C06': ('C01', 'C02', 'C04', 'C05'),     # rebuilt state / acknowledged commands / convergence after restarts
     'C07': (),
-    'C09': ('C01', 'C05'),                   # state after install = prefix; lagging follower converges
-    'C10': ('C01', 'C02', 'C03', 'C04', 'C05'),   # membership changes preserve C01-C04 (and the cluster still converges)
+    'C09': ('C01', 'C05', 'C10'),            # state after install = prefix; lagging follower converges; member set restored
+    'C10': ('C01', 'C02', 'C03', 'C04', 'C05', 'C09'),   # membership changes preserve C01-C04 (and the cluster still converges)
     'C12': ('C01', 'C02', 'C05'),            # no stall, no split
     'C17': ('C01',),
     'C18': ('C02', 'C04', 'C05'),
 }
 
 CASES = {
-    'C01': {'quick': 1600, 'thorough': 24000},
-    'C02': {'quick': 1600, 'thorough': 24000},
-    'C03': {'quick': 1600, 'thorough': 24000},
-    'C04': {'quick': 1600, 'thorough': 24000},
-    'C05': {'quick': 1000, 'thorough': 14000},
-    'C06': {'quick': 1200, 'thorough': 16000},
-    'C07': {'quick': 1600, 'thorough': 24000},
-    'C09': {'quick': 1000, 'thorough': 14000},
-    'C10': {'quick': 1400, 'thorough': 20000},
-    'C12': {'quick': 1200, 'thorough': 16000},
+    'C01': {'quick': 3000, 'thorough': 24000},
+    'C02': {'quick': 3000, 'thorough': 24000},
+    'C03': {'quick': 3000, 'thorough': 24000},
+    'C04': {'quick': 3000, 'thorough': 24000},
+    'C05': {'quick': 2500, 'thorough': 14000},
+    'C06': {'quick': 2000, 'thorough': 16000},
+    'C07': {'quick': 2500, 'thorough': 24000},
+    'C09': {'quick': 2000, 'thorough': 14000},
+    'C10': {'quick': 4000, 'thorough': 20000},
+    'C12': {'quick': 2000, 'thorough': 16000},
     'C16': {'quick': 700, 'thorough': 10000},
     'C17': {'quick': 900, 'thorough': 14000},
-    'C18': {'quick': 1400, 'thorough': 20000},
-    'C20': {'quick': 1600, 'thorough': 24000},
+    'C18': {'quick': 2500, 'thorough': 20000},
+    'C20': {'quick': 3000, 'thorough': 24000},
 }
 
 DECIDING = {
@@ -48,7 +48,7 @@ DECIDING = {
     'C06': ('kill_inside_trim', 'kill_inside_clear', 'restart_loaded_dump', 'restart_after_kill_inside_journal_op', 'all_voters_dead',
             'kill_at_primitive', 'restart_with_journal'),
     'C07': ('vote_granted_then_killed', 'restart_in_election', 'restarted_voter_votes'),
-    'C09': ('snapshot_load', 'snapshot_received_completely', 'snapshot_transfer_restarted', 'kill_during_dump_write',
+    'C09': ('snapshot_load', 'snapshot_received_completely', 'snapshot_transfer_restarted', 'snapshot_transfer_cut_midway', 'kill_during_dump_write',
             'snapshot_taken_with_consumers'),
     'C10': ('request_while_change_uncommitted', 'membership_entry_truncated', 'leader_with_uncommitted_change', 'shrunk_to_one',
             'membership_change_committed', 'removed_node_shut_down'),
@@ -167,6 +167,19 @@ def gen_cfg(prop, tier, seed, i):
             w['kill'] = 0.3
             w['restart'] = 1.0
         cfg['ext'] = ['snapshot']
+        if r.random() < 0.25:
+            # the member set is part of a snapshot: a quarter of the cases run with dynamic membership
+            cfg['sim'] = 'member'
+            cfg['journal'] = 'memory'
+            cfg.pop('kill_points', None)
+            w['kill'] = 0
+            w['member'] = pick(r, [0.5, 1.5])
+            w['operator'] = 1.0
+            cfg['readd_anytime'] = False
+            cfg['consumers'] = []
+        cfg['flapxfer'] = pick(r, [0.0, 0.05, 0.3])
+        # a slower machine (more virtual time per clock read): snapshot transfers then span several leader ticks
+        cfg['clock_eps'] = pick(r, [2e-5, 2e-4, 1e-3], [3, 2, 2])
         cfg['steps'] = pick(r, [800, 2000, 4000], [2, 3, 2])
     if prop == 'C10':
         cfg['n'] = pick(r, [1, 2, 3, 4], [1, 2, 3, 2])
@@ -181,6 +194,7 @@ def gen_cfg(prop, tier, seed, i):
         cfg['queue'] = 100000
         cfg.pop('consumers', None)
         cfg['sim'] = 'member'
+        cfg['ext'] = ['snapshot']
         cfg['readd_anytime'] = False    # literal-discipline re-adds (listed hazard) are not generated, see DESIGN.md
         cfg['wait_leader'] = r.random() < 0.3
     if prop == 'C16':
@@ -230,7 +244,7 @@ def gen_cfg(prop, tier, seed, i):
             w['restart'] = 1.5
         cfg['batch'] = pick(r, [200, 4096, 65536])
         cfg['chunk'] = pick(r, [50, 65536])
-    cfg['liveness'] = cfg['batch'] >= 200 and cfg['chunk'] >= 50
+    cfg['liveness'] = cfg['batch'] >= 200 and cfg['chunk'] >= 50 and cfg.get('clock_eps', 2e-5) <= 2e-5
     return cfg
 
 
@@ -241,6 +255,8 @@ def summarize_cfg(cfg):
 
 def make_sim(prop, cfg, seed):
     from .clustersim import Sim
+    cfg = dict(cfg)
+    cfg['stop_props'] = [prop] + list(ALSO.get(prop, ()))
     if cfg.get('sim') == 'member':
         from .membership import MemberSim
         sim = MemberSim(cfg, seed)
@@ -302,6 +318,8 @@ def result_of(prop, sim, cfg, run_seed, case):
             res['violations'].append(rec)
         else:
             res['other_props']['%s/%s' % (v.prop, v.kind)] = 1
+    for (op, ok) in sim.other_violations:
+        res['other_props']['%s/%s' % (op, ok)] = 1
     if case < 16:
         res['sample'] = {'cfg': summarize_cfg(cfg), 'seed': run_seed, 'first_actions': [list(a) for a in sim.actions[:14]],
                          'steps': sim.step, 'situations': dec}
